@@ -18,6 +18,7 @@ Record Waiting (s : sys) (c u : nat) (names : list fname) (v : chan) : Prop := {
   w_reg : get_chan (s_chans s) c = Some v;
   w_conn : conn_healthy s;
   w_io : s_io s = true;
+  w_send : s_sendfail s = false;
   w_state : c_state v = OPEN;
   w_errs : c_errs v = [];
   w_req : forall n, req_get (c_req v) n = if in_names n names then Some u else None;
@@ -32,7 +33,7 @@ Proof. destruct a; reflexivity. Qed.
 Lemma deliver_log s cf : s_io s = true ->
   deliver s cf =
   (let s' := {| s_conn := s_conn s; s_cerrs := s_cerrs s; s_chans := s_chans s; s_uuid := s_uuid s;
-                s_out := s_out s; s_io := s_io s; s_in := cf :: s_in s |} in
+                s_out := s_out s; s_io := s_io s; s_in := cf :: s_in s; s_sendfail := s_sendfail s |} in
    if Nat.eqb (fst cf) 0 then on_frame0 s' (snd cf) else on_frame s' (fst cf) (snd cf)).
 Proof. intros H. unfold deliver. rewrite H. reflexivity. Qed.
 
@@ -40,12 +41,13 @@ Lemma waiting_upd s c u names v v' :
   Waiting s c u names v -> c_state v' = c_state v -> c_errs v' = c_errs v ->
   c_req v' = c_req v -> c_resp v' = c_resp v -> Waiting (upd s c v') c u names v'.
 Proof.
-  intros W H1 H2 H3 H4. destruct (upd_conn s c v') as (A & B & _ & D & _).
+  intros W H1 H2 H3 H4. destruct (upd_conn s c v') as (A & B & _ & D & _ & SF).
   constructor.
   - apply W.
   - eapply upd_same. apply W.
   - destruct (w_conn _ _ _ _ _ W). split; congruence.
   - rewrite D. apply W.
+  - rewrite SF. apply W.
   - rewrite H1. apply W.
   - rewrite H2. apply W.
   - rewrite H3. apply W.
@@ -60,10 +62,10 @@ Proof.
   intros W Hq. unfold quiet in Hq. apply andb_true_iff in Hq. destruct Hq as [H0 Hq].
   apply negb_true_iff in H0. rewrite (deliver_log s cf (w_io _ _ _ _ _ W)). cbv zeta. rewrite H0.
   set (s' := {| s_conn := s_conn s; s_cerrs := s_cerrs s; s_chans := s_chans s; s_uuid := s_uuid s;
-                s_out := s_out s; s_io := s_io s; s_in := cf :: s_in s |}).
+                s_out := s_out s; s_io := s_io s; s_in := cf :: s_in s; s_sendfail := s_sendfail s |}).
   assert (W' : Waiting s' c u names v) by (destruct W; constructor; auto).
   clearbody s'. clear W. destruct cf as [k f]. cbn [fst snd] in *.
-  destruct (on_frame_conn s' k f) as (C1 & C2 & C3).
+  destruct (on_frame_conn s' k f (w_send _ _ _ _ _ W')) as (C1 & C2 & C3).
   destruct (Nat.eqb k c) eqn:Ek.
   - apply Nat.eqb_eq in Ek. subst k. cbn [negb orb] in Hq.
     apply andb_true_iff in Hq. destruct Hq as [Hq Hclose].
@@ -80,6 +82,7 @@ Proof.
     + rewrite on_frame_other by congruence. apply W'.
     + destruct (w_conn _ _ _ _ _ W'). split; congruence.
     + rewrite C3. apply W'.
+    + rewrite on_frame_sendfail. apply W'.
 Qed.
 
 Lemma deliver_all_quiet : forall tick s c u names v,
@@ -149,7 +152,7 @@ Lemma deliver_answered s c u f cf : Answered s c u f -> Answered (deliver s cf) 
 Proof.
   intros A. unfold deliver. destruct (s_io s); [|exact A]. cbn [negb].
   set (s' := {| s_conn := s_conn s; s_cerrs := s_cerrs s; s_chans := s_chans s; s_uuid := s_uuid s;
-                s_out := s_out s; s_io := true; s_in := cf :: s_in s |}).
+                s_out := s_out s; s_io := true; s_in := cf :: s_in s; s_sendfail := s_sendfail s |}).
   assert (A' : Answered s' c u f) by exact A.
   destruct (Nat.eqb (fst cf) 0).
   - unfold on_frame0. destruct (f_name (snd cf)); exact A'.
@@ -212,7 +215,7 @@ Lemma deliver_shape s c rq ks cf : Shape s c rq ks -> Shape (deliver s cf) c rq 
 Proof.
   intros A. unfold deliver. destruct (s_io s); [|exact A]. cbn [negb].
   set (s' := {| s_conn := s_conn s; s_cerrs := s_cerrs s; s_chans := s_chans s; s_uuid := s_uuid s;
-                s_out := s_out s; s_io := true; s_in := cf :: s_in s |}).
+                s_out := s_out s; s_io := true; s_in := cf :: s_in s; s_sendfail := s_sendfail s |}).
   assert (A' : Shape s' c rq ks) by exact A.
   destruct (Nat.eqb (fst cf) 0).
   - unfold on_frame0. destruct (f_name (snd cf)); exact A'.
@@ -346,6 +349,7 @@ Qed.
    bookkeeping behind and leaves the later batches for later. *)
 Theorem rpc_request_own_reply s c v w wstr names pre tpre f tpost rest :
   c <> 0%nat -> get_chan (s_chans s) c = Some v -> conn_healthy s -> s_io s = true ->
+  s_sendfail s = false ->
   c_state v = OPEN -> c_errs v = [] -> c_req v = [] -> c_resp v = [] ->
   forallb (fun t => forallb (quiet c names) t) pre = true ->
   forallb (quiet c names) tpre = true -> in_names (f_name f) names = true ->
@@ -355,21 +359,23 @@ Theorem rpc_request_own_reply s c v w wstr names pre tpre f tpost rest :
     c_req v' = [] /\ c_resp v' = [] /\
     get_chan (s_chans s') c = Some v'.
 Proof.
-  intros Hc Hreg Hh Hio Hst Herr Hreq Hresp Hpre Htpre Hn.
+  intros Hc Hreg Hh Hio Hsf Hst Herr Hreq Hresp Hpre Htpre Hn.
   unfold rpc_request, adapter_check, chan_check.
   rewrite (conn_check_ok s Hh), Herr, Hst. cbn [st_eqb].
   unfold register. rewrite Hreg. cbv zeta.
   set (u := s_uuid s).
   set (v1 := with_rpc v (fold_left (fun rq n => req_set rq n u) names (c_req v)) (resp_set (c_resp v) u [])).
   set (s1 := {| s_conn := s_conn s; s_cerrs := s_cerrs s; s_chans := set_chan (s_chans s) c v1;
-                s_uuid := S u; s_out := s_out s; s_io := s_io s; s_in := s_in s |}).
+                s_uuid := S u; s_out := s_out s; s_io := s_io s; s_in := s_in s;
+                s_sendfail := s_sendfail s |}).
   set (s2 := write s1 c w wstr).
   assert (W : Waiting s2 c u names v1).
   { constructor.
     - exact Hc.
     - unfold s2. destruct (write_chans s1 c w wstr) as [E _]. rewrite E. unfold s1. cbn [s_chans]. apply get_set_same.
-    - unfold s2, s1, write, conn_healthy. cbn. exact Hh.
+    - unfold s2, s1, write, conn_healthy. cbn. rewrite Hsf. exact Hh.
     - unfold s2, s1, write. cbn. exact Hio.
+    - unfold s2, s1, write. cbn. exact Hsf.
     - exact Hst.
     - exact Herr.
     - intros n. unfold v1. cbn [c_req with_rpc]. rewrite req_fold_get, Hreq. reflexivity.
@@ -416,6 +422,7 @@ Qed.
 (* ---------- C14: consume returns the tag the broker confirmed ---------- *)
 Theorem consume_confirmed_tag s c v tag pre tpre f tpost rest :
   c <> 0%nat -> get_chan (s_chans s) c = Some v -> conn_healthy s -> s_io s = true ->
+  s_sendfail s = false ->
   c_state v = OPEN -> c_errs v = [] -> c_req v = [] -> c_resp v = [] ->
   forallb (fun t => forallb (quiet c [NConsumeOk]) t) pre = true ->
   forallb (quiet c [NConsumeOk]) tpre = true -> f_name f = NConsumeOk ->
@@ -423,9 +430,9 @@ Theorem consume_confirmed_tag s c v tag pre tpre f tpost rest :
     do_consume (pre ++ (tpre ++ (c, f) :: tpost) :: rest) s c v tag = (s', v', RTag (f_str f), rest) /\
     mem_tag (f_str f) (c_tags v') = true /\ mem_tag (f_str f) (c_cbs v') = true.
 Proof.
-  intros Hc Hreg Hh Hio Hst He Hq Hr Hpre Htpre Hn. unfold do_consume.
+  intros Hc Hreg Hh Hio Hsf Hst He Hq Hr Hpre Htpre Hn. unfold do_consume.
   destruct (rpc_request_own_reply s c v WConsume tag [NConsumeOk] pre tpre f tpost rest
-              Hc Hreg Hh Hio Hst He Hq Hr Hpre Htpre) as (s1 & v1 & E & _).
+              Hc Hreg Hh Hio Hsf Hst He Hq Hr Hpre Htpre) as (s1 & v1 & E & _).
   { unfold in_names. cbn. now rewrite Hn. }
   rewrite E. eexists _, _. split; [reflexivity|]. cbn [c_tags c_cbs with_cbs with_tags].
   assert (Hm : forall l t, mem_tag t (if mem_tag t l then l else l ++ [t]) = true).
